@@ -559,6 +559,11 @@ func extractXMLDataField(parsedFieldBytes *TagValue, buffer []byte, dataLen int)
 		remBytes = buffer
 		return
 	}
+	if dataLen < 0 || dataLen > len(buffer) || endIndex+dataLen+2 > len(buffer) {
+		err = parseError{OrigError: fmt.Sprintf("extractXMLDataField: XMLDataLen %d exceeds message in %s", dataLen, string(buffer))}
+		remBytes = buffer
+		return
+	}
 	endIndex += dataLen + 1
 
 	err = parsedFieldBytes.parse(buffer[:endIndex+1])
